@@ -19,7 +19,7 @@ if os.environ.get("VF_REPO"):
     # experiments against a scratch worktree never touch the registered evidence
     EVIDENCE_DIR = os.path.join("/tmp", "vf_scratch", "evidence")
     REPLAY_DIR = os.path.join("/tmp", "vf_scratch", "replays")
-KNOWN_FILE = os.path.join(ROOT, "KNOWN_FINDINGS.txt")
+KNOWN_FILE = os.environ.get("VF_KNOWN") or os.path.join(ROOT, "KNOWN_FINDINGS.txt")  # VF_KNOWN: self-test only
 
 EXIT_OK, EXIT_VIOLATION, EXIT_HARNESS = 0, 1, 3
 
@@ -76,7 +76,7 @@ def _run_cell(job):
                                 detail=f"driver crashed: {type(e).__name__}: {e}\n"
                                        + traceback.format_exc())
     missing = [t for t in cell.must_reach if t not in res.tags]
-    if res.verdict == "confirmed" and missing:
+    if res.verdict == "confirmed" and missing and not res.known_hits:
         res.verdict = "harness_error"
         res.detail = f"vacuous: reachability witnesses never reached: {missing}"
     res.meta = {"entry": cell.entry, "note": cell.note, "budget_s": cell.budget_s,
